@@ -30,6 +30,7 @@ CONSTANTS Exs, Typs, Levs, Modes, Fees, Bals, Warms, Rts, Sims, Hps, Gens,   \* 
           CacheInvalidated,    \* TRUE: injecting a configuration drops the memo         (code: never)
           DriversRebuilt,      \* TRUE: the API drivers are rebuilt for every session     (code: first Broker only)
           SharedVarsReset,     \* TRUE: store.reset() empties store.vars                  (code: never)
+          DebugReset,          \* TRUE: a session starts with config['app']['debug_mode'] off (code: never reset)
           Export               \* TRUE: print one HIST line per finished probe
 
 VARIABLES cache, cfg, drivers, router, store, phase, a, ncalls, isProbe, seen, pre, used, hist, excs
@@ -109,8 +110,10 @@ Sees(s, c) ==
     [] c = "warmup-visible"  -> s.warmVisible = PWarm             \* warm-up candles in the store
     [] c = "routes"          -> s.rt = <<PEx, PRt>>
     [] c = "shared-vars"     -> s.shared = "empty"
+    [] c = "debug-mode"      -> s.debug = (IF PGen = "logs" THEN "on" ELSE "off")   \* in debug mode logger.error
+                                \* publishes to redis: a strategy that calls self.log(msg, 'error') raises
 Classes == {"driver", "account-type", "leverage", "leverage-mode", "fee-rate", "fee-in-trades", "balance",
-            "warmup-size", "warmup-visible", "routes", "shared-vars"}
+            "warmup-size", "warmup-visible", "routes", "shared-vars", "debug-mode"}
 Stale(s) == {c \in Classes : ~Sees(s, c)}
 AtEnd == phase = "probed"
 SeesDriver      == AtEnd => Sees(seen, "driver")
@@ -124,6 +127,7 @@ SeesWarmSize    == AtEnd => Sees(seen, "warmup-size")
 SeesWarmVisible == AtEnd => Sees(seen, "warmup-visible")
 SeesRoutes      == AtEnd => Sees(seen, "routes")
 SeesFreshVars   == AtEnd => Sees(seen, "shared-vars")
+SeesDebugMode   == AtEnd => Sees(seen, "debug-mode")
 ProbeSeesItsArguments == AtEnd => Stale(seen) = {}
 \* the phase in which a call with outcome o aborts
 CrashPhase(o) == CASE o = "cfgerr" -> "mode"       \* KeyError in _format_config
@@ -146,7 +150,7 @@ Goes(p) == phase = p /\ ~Aborts
 Begin(x, probe) ==
   /\ phase = "idle" /\ ~isProbe /\ (probe \/ ncalls < MaxCalls)
   /\ a' = x /\ isProbe' = probe /\ ncalls' = IF probe THEN ncalls ELSE ncalls + 1
-  /\ cfg' = [cfg EXCEPT !.tmode = "backtest"]
+  /\ cfg' = [cfg EXCEPT !.tmode = "backtest", !.debug = IF DebugReset THEN FALSE ELSE cfg.debug]
   /\ hist' = IF probe THEN hist ELSE Append(hist, x)
   \* the process state the probe starts in (kept so that each one is exported with its own history)
   /\ pre' = IF probe THEN <<cache, cfg, drivers, router, store, ncalls, used>> ELSE pre
@@ -198,8 +202,7 @@ InjectWarmup ==
   /\ Goes("storage")
   /\ store' = [store EXCEPT !.warmInj = a.warm]
   \* the simulator starts (backtest_mode.py l.392 / l.758): generate_logs switches config['app']['debug_mode']
-  \* on; nothing ever switches it off again (reset_config restores nothing).  As the code stands the flag is
-  \* not part of the returned value.
+  \* on; nothing ever switches it off again (reset_config restores nothing: backup_config['app'] is the same dict)
   /\ cfg' = IF a.gen = "logs" THEN [cfg EXCEPT !.debug = TRUE] ELSE cfg
   /\ phase' = "warmed" /\ UNCHANGED <<cache, drivers, router, a, ncalls, isProbe, seen, pre, used, hist, excs>>
 
